@@ -310,7 +310,8 @@ def run(res, rng, drv, tier):
     mlines, manswers, mcases = [], [], []
     for tags, count in type_lists:
         clss = [V.Array if g == "ARR" else K.VARCLS[g] for g in tags]
-        for p in pool if big else rng.shuffle(pool)[:28]:
+        near = [q for q in K.boundary_values(count) if q[0] in ("bytes", "str", "int", "bool")] if count > 0 else []
+        for p in (pool if big else rng.shuffle(pool)[:28]) + near:
             if not py_modelled(tags or [g for g in K.LEAVES if g != "J"], count, p):
                 continue
             x = K.py_real(p)
